@@ -81,6 +81,10 @@ Init(role, cfg) ==
      mustConn |-> FALSE,     \* a received frame is a connection error (RFC 9113): E owes a GOAWAY with an error code
      mustStream |-> {},      \* streams on which a received frame is a stream error: E owes at least RST_STREAM
      illegalSeen |-> FALSE,
+     inCount |-> 0,          \* frames E has read
+     batchStart |-> 0,       \* inCount before the latest transport read (E may be reacting to any frame of the latest batch)
+     connWhy |-> "",         \* what made the first connection error of the peer
+     lastStreamIllegal |-> -1,   \* inCount of the latest frame that was a stream error (or completed a malformed prefix)
      v |-> <<>>, hits |-> EmptyMap]
 
 S(m, s) == Get(m.st, s, DefStream)
@@ -124,7 +128,8 @@ OutLife(m, f, l) ==
                    IF ty = "HEADERS"
                    THEN Check(m2, "C04.id_order", s > m.maxLocal /\ m.role = "c", l, s, "open")
                    ELSE IF ty = "PRIORITY" THEN m2
-                   ELSE Viol(Hit(m2, "C04.idle_local"), "C04.idle_local", l, s, ty)
+                   ELSE Viol(Hit(m2, "C04.idle_local"), "C04.idle_local", l, s,
+                             IF ty = "RST_STREAM" /\ x.hdrsIn > 0 THEN "rst_stream_answering_peer_headers_on_an_idle_local_stream" ELSE ty)
               ELSE m2
         \* frame types permitted in E's send state
         m4 == IF s = 0 \/ ty \in {"CONTINUATION", "PRIORITY"} THEN m3
@@ -310,7 +315,12 @@ ApplyOut(m, f) ==
 \* E wrote a GOAWAY with an error code although every frame it received was legal and nothing failed locally
 OutPenalty(m, f, l) ==
     IF f.ty = "GOAWAY" /\ (f.ch # 0 \/ f.cl # 0)
-    THEN IF m.illegalSeen \/ m.tainted \/ m.dead \/ m.ended \/ (f.ch = 0 /\ f.cl = ENHANCE_YOUR_CALM) THEN m
+    THEN IF \/ m.mustConn \/ m.tainted \/ m.dead \/ m.ended \/ (f.ch = 0 /\ f.cl = ENHANCE_YOUR_CALM)
+            \* a stream error of the peer may be answered by more than RST_STREAM - but only when it is the frame E is
+            \* reacting to (read in the latest batch) or has not been answered yet, not any time later on legal traffic
+            \/ (m.illegalSeen /\ m.lastStreamIllegal > m.batchStart)
+            \/ (\E s \in m.mustStream : S(m, s).rstOut = 0)
+         THEN m
          ELSE Viol(Hit(m, "C09.legal_not_penalised"), "C09.legal_not_penalised", l, 0,
                    IF f.ch = 0 /\ f.cl = PROTOCOL_ERROR /\ m.role = "s"
                       /\ (\E s \in DOMAIN m.st : ~LocalInit(m.role, s) /\ m.st[s].rstOut > 0 /\ m.st[s].hdrsIn >= 2)
@@ -387,9 +397,13 @@ PrefixMalformed(m, f) ==
 NoteIn(m, f, l) ==
     LET c == IF m.mustConn \/ m.dead THEN "legal" ELSE Classify(m, f)   \* nothing is judged after the first connection error
         m0 == IF f.ty \in {"HEADERS", "PUSH_PROMISE", "CONTINUATION"} /\ ~f.eh /\ f.pcls # <<>> /\ PrefixMalformed(m, f)
-              THEN [m EXCEPT !.illegalSeen = TRUE] ELSE m
-        m1 == IF c = "conn" THEN [Hit(m0, "C09.conn_error") EXCEPT !.mustConn = TRUE, !.illegalSeen = TRUE, !.tainted = TRUE]
-              ELSE IF c = "stream" THEN [Hit(m0, "C09.stream_error") EXCEPT !.mustStream = m.mustStream \cup {f.sid}, !.illegalSeen = TRUE]
+              THEN [m EXCEPT !.illegalSeen = TRUE, !.lastStreamIllegal = m.inCount + 1, !.inCount = m.inCount + 1]
+              ELSE [m EXCEPT !.inCount = m.inCount + 1]
+        m1 == IF c = "conn" THEN [Hit(m0, "C09.conn_error") EXCEPT !.mustConn = TRUE, !.illegalSeen = TRUE, !.tainted = TRUE,
+                                     !.connWhy = IF f.ty = "HEADERS" /\ LocalInit(m.role, f.sid) /\ PeerIdle(m, f.sid) /\ f.bad = ""
+                                                 THEN "headers_on_idle_local_stream" ELSE f.ty]
+              ELSE IF c = "stream" THEN [Hit(m0, "C09.stream_error") EXCEPT !.mustStream = m.mustStream \cup {f.sid}, !.illegalSeen = TRUE,
+                                                                         !.lastStreamIllegal = m.inCount + 1]
               ELSE m0
         m2 == IF f.ty \in {"HEADERS", "PUSH_PROMISE"} /\ ~f.eh /\ f.bad = "" THEN [m1 EXCEPT !.hdrIn = f.sid]
               ELSE IF f.ty = "CONTINUATION" /\ f.eh THEN [m1 EXCEPT !.hdrIn = 0]
@@ -401,7 +415,7 @@ StepQf(m, e, l) ==
     IF e.wblocked[m.role] THEN m
     ELSE
     LET errGoAway == m.goOutN > 0 /\ m.err
-        m1 == IF m.mustConn /\ ~m.killed THEN Check(m, "C09.conn_error", errGoAway, l, 0, "connection error of the peer not answered by GOAWAY") ELSE m
+        m1 == IF m.mustConn /\ ~m.killed THEN Check(m, "C09.conn_error", errGoAway, l, 0, <<"connection error of the peer not answered by GOAWAY", m.connWhy>>) ELSE m
         unanswered == {s \in m.mustStream : S(m, s).rstOut = 0}
         m2 == IF m.mustStream # {} /\ ~m.mustConn /\ ~m.killed
               THEN Check(m1, "C09.stream_error", unanswered = {} \/ errGoAway, l, 0, unanswered)
@@ -623,7 +637,8 @@ Step(m, e, l) ==
     IF e.t = "out" THEN StepOut(m, e.f, l)
     ELSE IF e.t = "in" THEN StepInBlockEnd(MarkZeroed(StepIn(MarkOverLimit(NoteIn(m, e.f, l), e.f), e.f, l), e.f), e.f)
     ELSE IF e.t = "qf" THEN StepQf(m, e, l)
-    ELSE IF e.t = "rd" THEN (IF e.n = 0 \/ e.n = -2 THEN [StepRd(m) EXCEPT !.dead = TRUE, !.err = m.err \/ e.n = -2, !.killed = TRUE] ELSE StepRd(m))
+    ELSE IF e.t = "rd" THEN (IF e.n = 0 \/ e.n = -2 THEN [StepRd(m) EXCEPT !.dead = TRUE, !.err = m.err \/ e.n = -2, !.killed = TRUE]
+                             ELSE IF e.n > 0 THEN [StepRd(m) EXCEPT !.batchStart = m.inCount] ELSE StepRd(m))
     ELSE IF e.t = "fl" THEN (IF e.ok THEN StepFl(m) ELSE m)
     ELSE IF e.t = "wr" THEN (IF e.n = -2 \/ e.n = 0 THEN [m EXCEPT !.dead = TRUE, !.err = TRUE, !.killed = TRUE] ELSE m)
     ELSE IF e.t = "sd" THEN [m EXCEPT !.dead = TRUE]
